@@ -11,6 +11,9 @@ QuickDefs ==
     { PD("plate", R(2,1), R(3,2), RZero, RZero, ROne, 4, 3, FlPrimes, LamGen, iv[1], iv[2], R(3,1), Zero3) : iv \in Ivs }
     \cup { PD("plate", R(1,1), R(1,2), RZero, RZero, ROne, 3, 3, fl, LamSym, RZero, ROne, R(2,1), Zero3) : fl \in {FlSS, FlFree, FlMixed} }
     \cup { PD("plate", R(2,1), R(3,2), RZero, RZero, ROne, 3, 3, FlPrimes, LamGen, RZero, ROne, R(3,1), <<R(-3,1), R(2,1), R(1,1)>>) }
+    (* a pre-load with a single non-zero component, each component in turn *)
+    \cup { PD("plate", R(2,1), R(3,2), RZero, RZero, ROne, 2, 3, FlPrimes, LamGen, RZero, ROne, R(3,1), nn)
+             : nn \in { <<R(-3,1), RZero, RZero>>, <<RZero, R(2,1), RZero>>, <<RZero, RZero, R(1,1)>> } }
     \cup { PD("cpanel", R(2,1), R(3,2), R(4,1), RZero, ROne, 3, 4, FlPrimes, LamGen, iv[1], iv[2], R(3,1), Zero3)
              : iv \in { <<RZero, ROne>>, <<R(1,4), R(3,4)>> } }
     \cup { PD("kpanel", R(2,1), R(3,2), R(4,1), R(3,5), R(4,5), 3, 3, FlPrimes, LamGen, RZero, ROne, R(3,1), Zero3) }
